@@ -11,8 +11,8 @@ CLAIMED = {
         text='z3 shows on every path of the real Estimate/ThermochemGroupAdditive code that each property is the '
              'count-weighted sum (or the incomplete-data error), and that missing descriptors are named exactly, for all '
              'real-valued counts/contributions within the size bound; for each of the nine shipped libraries the whole '
-             'count vector over every group with data is symbolic at concrete temperatures. Bounded (<= 4 synthetic '
-             'descriptors), not a proof.',
+             'count vector over every group with data is symbolic at concrete temperatures; two estimates in sequence from one '
+             'library object must each use their own counts. Bounded (<= 4 synthetic descriptors), not a proof.',
         note='float := real; shipped constituents evaluated concretely outside the tracer (concrete T); non-empty range '
              'intersection assumed',
         technique=A + 'symbolic real counts and values', ref='DESIGN.md 4/C01'),
@@ -20,7 +20,8 @@ CLAIMED = {
         text='For tables of 1..4 points with all values symbolic reals (any supply order, any placement of T_ref and T), '
              'z3 decides the enthalpy/entropy integral identities against an independently written antiderivative, Cp '
              'reproduction, reference values, G = H - S and order independence on every path of the real constructors '
-             'and getters. Bounded model checking; larger tables are outside the claim.',
+             'and getters; placement obligations (concrete 2-4 point tables) and shipped groups (their real FITPACK spline '
+             'as an exact piecewise polynomial) keep T_ref/T symbolic. Bounded model checking.',
         note='float := real; FITPACK/QUADPACK/np.log behind PolySpline/QuadStub/uninterpreted LN (validated concretely); '
              'obligations that exhaust their budget are reported inconclusive',
         technique=A + 'nonlinear real arithmetic, uninterpreted LN with ratio axioms', ref='DESIGN.md 4/C05'),
@@ -28,8 +29,8 @@ CLAIMED = {
         text='For every value of the symbolic reals (range bounds, reference temperature, table points in any supply '
              'order, evaluation temperature, counts) within the size bound, z3 shows on every path of the real '
              'check_range/getters/constructors that a value is returned iff T is inside the valid range, the estimate '
-             'range is the intersection, and out-of-range table/T_ref are rejected. Bounded model checking of the real '
-             'code; not a proof (tables <= 4 points, estimates <= 3 constituents).',
+             'range is the intersection, and out-of-range table/T_ref are rejected; check_range is also decided for arrays of symbolic temperatures. Bounded model '
+             'checking of the real code; not a proof (tables <= 4 points, estimates <= 3 constituents).',
         note='float modelled as real; FITPACK/QUADPACK/np.log behind PolySpline/QuadStub/uninterpreted LN (validated '
              'concretely each run); scalar T only',
         technique=A + 'reals for all numeric inputs', ref='DESIGN.md 4/C06'),
@@ -50,8 +51,9 @@ CLAIMED = {
     'C10': dict(
         text='UnitsDB.lookup is translated from its AST to z3 string constraints and decided for every string of length '
              '<= 16; the expression parser/evaluator is executed on every token sequence up to length 3-4 with symbolic '
-             'real numerals against an independent evaluator; conversions are decided for symbolic magnitudes. The unit '
-             'table itself is compared concretely with an independent SI table. Bounded.',
+             'real numerals against an independent evaluator; conversions are decided for symbolic magnitudes; sequences of lookups '
+             'through the process-global table must not influence each other. The unit table itself is compared concretely with '
+             'an independent SI table. Bounded.',
         note='regex tokeniser bypassed (validated); float := real; definition table is configuration, checked by comparison',
         technique='AST->z3 (sequence theory) for lookup; ' + A + 'symbolic magnitudes', ref='DESIGN.md 4/C10',
         engine='crosshair-z3'),
@@ -137,8 +139,9 @@ CLAIMED = {
         technique=A + 'solver-enumerated small integers', ref='DESIGN.md 4/C19'),
     'C20': dict(
         text='z3 shows that the radicand handed to sqrt equals RMSE^2 * x.M.x for symbolic real counts and RMSE (concrete '
-             'and symbolic 3x3 M; concrete shipped M on seeded basis subsets), that scaling multiplies it by c^2, that '
-             'mapping order is irrelevant and that an out-of-basis descriptor raises. Bounded.',
+             'and symbolic 3x3 M; for the three shipped uncertainty libraries the WHOLE count vector over the basis, 66-75 reals at once), '
+             'that scaling multiplies it by c^2, that mapping order and the order of two libraries are irrelevant and that an '
+             'out-of-basis descriptor raises. Bounded in the synthetic part; the shipped part is universal over the count vector.',
         note='numpy behind a list-based array shim; sqrt uninterpreted; the real numpy path is replayed concretely',
         technique=A + 'polynomial identities over the reals', ref='DESIGN.md 4/C20'),
 }
